@@ -117,6 +117,7 @@ CHECKS = {
             dict(name="scripted", run="^TestPropSendRequest$", checks=(15000, 100000), shards=(4, 16)),
             dict(name="service", run="^TestPropServiceTimeouts$", checks=(5000, 40000), shards=(2, 8)),
             dict(name="svcconc", run="^TestPropConcurrentServiceTimeouts$", checks=(40, 600), shards=(1, 4), shrinktime="5s"),
+            dict(name="concreq", run="^TestPropConcurrentRequests$", checks=(30, 400), shards=(2, 4), shrinktime="5s"),
             dict(name="realnats", run="^TestRealNATS$", shards=(1, 1)),
             dict(name="oldtimers", run="^TestOldTimerSemantics$", shards=(2, 4), env={"GODEBUG": "asynctimerchan=1"}),
         ],
